@@ -11,10 +11,12 @@ Definition F (n : Z) (d : positive) : val := Some (n # d).
 Definition NA : val := None.
 Definition R (tg : list Z) (sl : list (list Z)) : raw := {| r_tags := tg; r_slots := sl |}.
 Definition S_ (w : what) (by_ : bool) : sel := {| s_what := w; s_by := by_ |}.
-(* uniform axis t0, t0+step, ... (n points) *)
-Definition Y (counter : bool) (ntags : nat) (t0 : Z) (n : nat) (step startx vs ve : Z) : query :=
-  {| q_counter := counter; q_ntags := ntags; q_t := map (fun i => t0 + Z.of_nat i * step) (seq 0 n);
-     q_step := step; q_startx := startx; q_vs := vs; q_ve := ve |}.
+(* axis made of LODs (t0, step, n): t0, t0+step, ... (n points) each; tsstep = Timescale.Step *)
+Definition Y (counter : bool) (ntags : nat) (tsstep : Z) (lods : list (Z * Z * nat)) (startx vs ve : Z) : query :=
+  {| q_counter := counter; q_ntags := ntags;
+     q_t := flat_map (fun l => map (fun i => fst (fst l) + Z.of_nat i * snd (fst l)) (seq 0 (snd l))) lods;
+     q_step := tsstep; q_lods := map (fun l => (snd (fst l), snd l)) lods;
+     q_startx := startx; q_vs := vs; q_ve := ve |}.
 Definition T (l : list Z) : tags := combine (seq 0 (length l)) l.      (* all tags present *)
 Definition K (l : list (nat * Z)) : tags := l.
 
@@ -48,7 +50,7 @@ Inductive case :=
    (identified by their tags) and no member is beaten by a non-member *)
 Definition has_tags (obs : list series) (s : series) : bool := existsb (fun o => tags_eqb (fst o) (fst s)) obs.
 Definition topk_group_ok (qy : query) (desc : bool) (k : Z) (grp : list series) (obs : list series) : bool :=
-  let ws := weights (q_step qy) (q_vs qy) (q_ve qy) (map snd grp) in
+  let ws := weights (lodsteps qy) (q_vs qy) (q_ve qy) (map snd grp) in
   let gw := combine grp ws in
   let chosen := filter (fun sw => has_tags obs (fst sw)) gw in
   let rest := filter (fun sw => negb (has_tags obs (fst sw))) gw in
@@ -57,9 +59,8 @@ Definition topk_group_ok (qy : query) (desc : bool) (k : Z) (grp : list series) 
 
 Definition topk_ok (fixed : bool) (qy : query) (data : list raw) (s : sel) (chain : list node) (desc : bool) (k : Z)
            (without : bool) (g : list nat) (obs : list series) : bool :=
-  let '(w, gb, range, rest) := plan fixed (q_counter qy) (q_ntags qy) s (chain ++ [NAgg AGroup 0%Q without g]) (q_step qy) in
-  let qstep := if range =? 0 then q_step qy else range in
-  let inner := eval_chain fixed (q_t qy) (q_step qy) (removelast rest) 0 (storage w gb qstep (q_step qy) data) in
+  let '(w, gb, range, rest) := plan fixed (q_counter qy) (q_ntags qy) s (chain ++ [NAgg AGroup 0%Q without g]) (stepmin qy) in
+  let inner := eval_chain fixed (q_t qy) (stepmin qy) (removelast rest) 0 (storage w gb range (q_step qy) (lodsteps qy) data) in
   (* removeEmptySeries *)
   let inner := filter (fun s => existsb is_some (slice (snd s) (q_vs qy) (q_ve qy - 1))) inner in
   if k <=? 0 then match obs with [] => true | _ => false end
